@@ -132,103 +132,8 @@ def run(chk, repo, tier):
            repo.func('radiometry.Photlam.to').loc())
 
     # ---------------------------------------------------------------- C14-c
-    fto = repo.func('radiometry.Spectrum.to')
-    _, paths, _ = analyse(repo, fto)
-    loops = [lp for p in paths for lp in p.state.loops if lp['func'] == fto.key]
-    if not loops:
-        raise AnalysisError('Spectrum.to: unit loop not found')
-    lp = loops[0]
-    # the property getters may be inlined (self.wave -> self._wave): use whichever form occurs
-    seen_atoms = set()
-    for bs in lp['states']:
-        for e in bs.events[lp['n_pre_events']:]:
-            if e.kind == 'write' and 'value' in e.data:
-                seen_atoms |= nf.value_atoms(e.data['value'])
-
-    def pick(name):
-        for cand in (nf.attr(S('self'), '_' + name), nf.attr(S('self'), name)):
-            if cand.single_atom() in seen_atoms:
-                return cand
-        return nf.attr(S('self'), name)
-    wave_attr, val_attr = pick('wave'), pick('value')
-    n_w = n_f = n_none = 0
-    ok_w = ok_none = ok_f = True
-    det_w = det_f = det_none = ''
-    for bs in lp['states']:
-        stores = {}
-        for e in bs.events[lp['n_pre_events']:]:
-            if e.kind == 'write' and e.data.get('how') == 'attrstore' and root_is_self(e.target):
-                stores[e.data['attr']] = (e.data['value'], e)
-        conds = bs.conds[lp['n_pre_conds']:]
-        cs = ' & '.join(('' if pol else 'not ') + fmt(c) for c, pol, _ in conds)
-        if 'wave' in stores and 'valueunit' not in stores:
-            wv = stores['wave'][0]
-            k = wv / wave_attr if isinstance(wv, Poly) else None
-            if 'value' in stores:
-                n_w += 1
-                vv = stores['value'][0]
-                good = isinstance(vv, Poly) and k is not None and vv * k == val_attr and not mentions(k, wave_attr)
-                ok_w = ok_w and good
-                if not good:
-                    det_w = f'wave <- {fmt(wv)} but value <- {fmt(vv)} (not the reciprocal factor) [{cs}]'
-            else:
-                n_none += 1
-        elif 'valueunit' in stores and 'value' in stores:
-            n_f += 1
-            vv = stores['value'][0]
-            good, det = flux_branch_ok(vv, wave_attr, val_attr)
-            ok_f = ok_f and good
-            det_f = det_f or det
-            if 'wave' in stores:
-                ok_f = False
-                det_f = 'the flux branch also rewrites the wavelengths'
-        elif 'value' in stores and 'wave' not in stores and 'valueunit' not in stores:
-            ok_none = False
-            det_none = f'values rewritten without the wavelengths [{cs}]'
-    # every conversion factor is looked up inside the loop, after earlier arguments have updated the units
-    stale = []
-    for pth in paths:
-        for e in pth.events:
-            if e.kind == 'call' and e.depth == 0 and not e.in_loop and \
-                    (e.data.get('callee') in ('method:to', 'radiometry.Meter.to') or str(e.data.get('callee', '')).endswith('.to')) \
-                    and e.data.get('callee') != fto.key:
-                stale.append(e.loc())
-    chk.ob('C14-c', 'D-freshness', fto.key, 'unit factors are evaluated per argument (not once before the loop)', not stale,
-           f'conversion factor computed before the loop at {sorted(set(stale))}: it is stale once an earlier argument changed the unit'
-           if stale else 'all factor look-ups are inside the loop', fto.loc())
-    # each of the three flux units is a density per wavelength: with any of them a change of wavelength unit rescales both
-    # the wavelengths and the values (decided with the unit as a fact, tables read by value)
-    for vu in ('photlam', 'flam', 'wlam'):
-        facts_vu = {nf.attr(S('self'), 'valueunit').single_atom(): Const(vu)}
-        cls_ = repo.cls('radiometry.Spectrum')
-        for unit_cls, unit_name in (('Photlam', 'photlam'), ('Flam', 'flam'), ('Wlam', 'wlam')):
-            if unit_name == vu:
-                facts_vu[nf.attr(nf.attr(S('self'), '_valueunit'), 'name').single_atom()] = Const(vu)
-        ucls = {'photlam': 'Photlam', 'flam': 'Flam', 'wlam': 'Wlam'}[vu]
-        types_vu = {nf.attr(S('self'), '_valueunit').single_atom(): repo.cls(f'radiometry.{ucls}')} \
-            if f'radiometry.{ucls}' in {c.key for m_ in repo.modules.values() for c in m_.classes.values()} else {}
-        _, vpaths, _ = analyse(repo, fto, facts=facts_vu, types=types_vu, literal_tables=True)
-        n_br, miss = 0, []
-        for lp_ in [l_ for q in vpaths for l_ in q.state.loops if l_['func'] == fto.key][:1]:
-            for bs in lp_['states']:
-                stores = {e.data['attr'] for e in bs.events[lp_['n_pre_events']:]
-                          if e.kind == 'write' and e.data.get('how') == 'attrstore' and root_is_self(e.target)}
-                if 'waveunit' in stores and 'valueunit' not in stores:
-                    n_br += 1
-                    if not {'wave', 'value'} <= stores:
-                        cs = ' & '.join(('' if pol else 'not ') + fmt(c)[:70] for c, pol, _ in bs.conds[lp_['n_pre_conds']:])
-                        miss.append(f'the wavelength unit is relabelled but {sorted({"wave", "value"} - stores)} stay as they are [{cs}]')
-        open_lookup = any('m:get(' in fmt(c) or 'callv(' in fmt(c) for l_ in [l2 for q in vpaths for l2 in q.state.loops if l2['func'] == fto.key][:1]
-                          for bs in l_['states'] for c, _p, _n in bs.conds[l_['n_pre_conds']:])
-        chk.ob('C14-c', 'T-table', fto.key, f'a spectrum in {vu} is rescaled as a density when its wavelength unit changes',
-               ((not miss) if not (miss and open_lookup) else None) if n_br else None, '; '.join(miss[:1]) or f'{n_br} wavelength-unit branch(es), all rescale wave and value', fto.loc())
-    chk.ob('C14-c', 'N-reciprocal', fto.key, 'density branch', ok_w and n_w > 0,
-           det_w or 'value is divided by exactly the factor that multiplies wave', fto.loc())
-    chk.ob('C14-c', 'D-untouched', fto.key, 'unitless branch', ok_none and n_none > 0,
-           det_none or 'only the wavelengths are converted when valueunit is None', fto.loc())
-    chk.ob('C14-c', 'N-flux', fto.key, 'flux branch', ok_f and n_f > 0,
-           det_f or 'converted through metres and back', fto.loc())
-
+    import sys as _sys
+    _run_nested(_sys.modules[__name__], chk, repo, tier, 'to_rules')
     unit_label_order_rule(chk, repo, 'C14-c')
     rescaled_copy_rule(chk, repo, 'C14-c')
     # the Vega zero point a magnitude-scaled blackbody is sampled with is looked up for the wavelength unit of *this* request
@@ -352,6 +257,108 @@ def run(chk, repo, tier):
                     chk.ob('C14-g', 'B5-default', key, f'call of {s.callee.key} at line {s.node.lineno} passes {unit}', explicit,
                            '' if explicit else f'relies on the default {unit}={dflt[unit].value!r} of {s.callee.key} although '
                                                f'{key} works in the `{unit}` it was given', s.loc())
+
+
+def to_rules(chk, repo, tier):
+    """Spectrum.to branch by branch: densities, unitless values, flux conversions (C14-c; also what brings the second
+    operand of mixed-unit spectrum arithmetic to the unit of the first)."""
+    fto = repo.func('radiometry.Spectrum.to')
+    _, paths, _ = analyse(repo, fto)
+    loops = [lp for p in paths for lp in p.state.loops if lp['func'] == fto.key]
+    if not loops:
+        raise AnalysisError('Spectrum.to: unit loop not found')
+    lp = loops[0]
+    # the property getters may be inlined (self.wave -> self._wave): use whichever form occurs
+    seen_atoms = set()
+    for bs in lp['states']:
+        for e in bs.events[lp['n_pre_events']:]:
+            if e.kind == 'write' and 'value' in e.data:
+                seen_atoms |= nf.value_atoms(e.data['value'])
+
+    def pick(name):
+        for cand in (nf.attr(S('self'), '_' + name), nf.attr(S('self'), name)):
+            if cand.single_atom() in seen_atoms:
+                return cand
+        return nf.attr(S('self'), name)
+    wave_attr, val_attr = pick('wave'), pick('value')
+    n_w = n_f = n_none = 0
+    ok_w = ok_none = ok_f = True
+    det_w = det_f = det_none = ''
+    for bs in lp['states']:
+        stores = {}
+        for e in bs.events[lp['n_pre_events']:]:
+            if e.kind == 'write' and e.data.get('how') == 'attrstore' and root_is_self(e.target):
+                stores[e.data['attr']] = (e.data['value'], e)
+        conds = bs.conds[lp['n_pre_conds']:]
+        cs = ' & '.join(('' if pol else 'not ') + fmt(c) for c, pol, _ in conds)
+        if 'wave' in stores and 'valueunit' not in stores:
+            wv = stores['wave'][0]
+            k = wv / wave_attr if isinstance(wv, Poly) else None
+            if 'value' in stores:
+                n_w += 1
+                vv = stores['value'][0]
+                good = isinstance(vv, Poly) and k is not None and vv * k == val_attr and not mentions(k, wave_attr)
+                ok_w = ok_w and good
+                if not good:
+                    det_w = f'wave <- {fmt(wv)} but value <- {fmt(vv)} (not the reciprocal factor) [{cs}]'
+            else:
+                n_none += 1
+        elif 'valueunit' in stores and 'value' in stores:
+            n_f += 1
+            vv = stores['value'][0]
+            good, det = flux_branch_ok(vv, wave_attr, val_attr)
+            ok_f = ok_f and good
+            det_f = det_f or det
+            if 'wave' in stores:
+                ok_f = False
+                det_f = 'the flux branch also rewrites the wavelengths'
+        elif 'value' in stores and 'wave' not in stores and 'valueunit' not in stores:
+            ok_none = False
+            det_none = f'values rewritten without the wavelengths [{cs}]'
+    # every conversion factor is looked up inside the loop, after earlier arguments have updated the units
+    stale = []
+    for pth in paths:
+        for e in pth.events:
+            if e.kind == 'call' and e.depth == 0 and not e.in_loop and \
+                    (e.data.get('callee') in ('method:to', 'radiometry.Meter.to') or str(e.data.get('callee', '')).endswith('.to')) \
+                    and e.data.get('callee') != fto.key:
+                stale.append(e.loc())
+    chk.ob('C14-c', 'D-freshness', fto.key, 'unit factors are evaluated per argument (not once before the loop)', not stale,
+           f'conversion factor computed before the loop at {sorted(set(stale))}: it is stale once an earlier argument changed the unit'
+           if stale else 'all factor look-ups are inside the loop', fto.loc())
+    # each of the three flux units is a density per wavelength: with any of them a change of wavelength unit rescales both
+    # the wavelengths and the values (decided with the unit as a fact, tables read by value)
+    for vu in ('photlam', 'flam', 'wlam'):
+        facts_vu = {nf.attr(S('self'), 'valueunit').single_atom(): Const(vu)}
+        cls_ = repo.cls('radiometry.Spectrum')
+        for unit_cls, unit_name in (('Photlam', 'photlam'), ('Flam', 'flam'), ('Wlam', 'wlam')):
+            if unit_name == vu:
+                facts_vu[nf.attr(nf.attr(S('self'), '_valueunit'), 'name').single_atom()] = Const(vu)
+        ucls = {'photlam': 'Photlam', 'flam': 'Flam', 'wlam': 'Wlam'}[vu]
+        types_vu = {nf.attr(S('self'), '_valueunit').single_atom(): repo.cls(f'radiometry.{ucls}')} \
+            if f'radiometry.{ucls}' in {c.key for m_ in repo.modules.values() for c in m_.classes.values()} else {}
+        _, vpaths, _ = analyse(repo, fto, facts=facts_vu, types=types_vu, literal_tables=True)
+        n_br, miss = 0, []
+        for lp_ in [l_ for q in vpaths for l_ in q.state.loops if l_['func'] == fto.key][:1]:
+            for bs in lp_['states']:
+                stores = {e.data['attr'] for e in bs.events[lp_['n_pre_events']:]
+                          if e.kind == 'write' and e.data.get('how') == 'attrstore' and root_is_self(e.target)}
+                if 'waveunit' in stores and 'valueunit' not in stores:
+                    n_br += 1
+                    if not {'wave', 'value'} <= stores:
+                        cs = ' & '.join(('' if pol else 'not ') + fmt(c)[:70] for c, pol, _ in bs.conds[lp_['n_pre_conds']:])
+                        miss.append(f'the wavelength unit is relabelled but {sorted({"wave", "value"} - stores)} stay as they are [{cs}]')
+        open_lookup = any('m:get(' in fmt(c) or 'callv(' in fmt(c) for l_ in [l2 for q in vpaths for l2 in q.state.loops if l2['func'] == fto.key][:1]
+                          for bs in l_['states'] for c, _p, _n in bs.conds[l_['n_pre_conds']:])
+        chk.ob('C14-c', 'T-table', fto.key, f'a spectrum in {vu} is rescaled as a density when its wavelength unit changes',
+               ((not miss) if not (miss and open_lookup) else None) if n_br else None, '; '.join(miss[:1]) or f'{n_br} wavelength-unit branch(es), all rescale wave and value', fto.loc())
+    chk.ob('C14-c', 'N-reciprocal', fto.key, 'density branch', ok_w and n_w > 0,
+           det_w or 'value is divided by exactly the factor that multiplies wave', fto.loc())
+    chk.ob('C14-c', 'D-untouched', fto.key, 'unitless branch', ok_none and n_none > 0,
+           det_none or 'only the wavelengths are converted when valueunit is None', fto.loc())
+    chk.ob('C14-c', 'N-flux', fto.key, 'flux branch', ok_f and n_f > 0,
+           det_f or 'converted through metres and back', fto.loc())
+
 
 
 def rescaled_copy_rule(chk, repo, clause):
